@@ -8,6 +8,7 @@ import (
 	"encoding/json"
 	"fmt"
 	"sort"
+	"sync"
 	"time"
 
 	"github.com/goptics/varmq/internal/simrt"
@@ -40,6 +41,9 @@ type adCall struct {
 }
 
 type simAdapter struct {
+	// a real adapter is internally synchronised: its calls are ordered by a real
+	// lock, which is also what hands the stored bytes from producer to consumer
+	real    sync.Mutex
 	root    *World
 	prio    bool
 	cfg     QCfg
@@ -70,6 +74,11 @@ func (wd *World) adapterFor(qc QCfg, prio bool) *simAdapter {
 	return &simAdapter{root: wd.root, prio: prio, cfg: qc, faultsOn: true}
 }
 
+// hb is the adapter's internal lock seen from outside: an acquire on entry and
+// a release on exit of every call (the bodies are atomic steps; the real lock
+// is never held across a yield).
+func (a *simAdapter) hb() { a.real.Lock(); a.real.Unlock() }
+
 func (a *simAdapter) log(op string, sub int, id string, ok bool) {
 	a.calls = append(a.calls, adCall{Seq: a.root.rec.stamp(), Op: op, Sub: sub, ID: id, OK: ok, Task: simrt.CurID()})
 }
@@ -86,6 +95,8 @@ func subOfBytes(b []byte) int {
 
 func (a *simAdapter) enqueue(item any, prio int) bool {
 	simrt.YieldAlways()
+	a.hb()
+	defer a.hb()
 	b, isBytes := item.([]byte)
 	sub := -1
 	if isBytes {
@@ -113,6 +124,7 @@ func (a *simAdapter) enqueue(item any, prio int) bool {
 	a.pending = append(a.pending, e)
 	a.log("enq", sub, "", true)
 	a.root.rec.adEnq(a, sub)
+	a.hb()
 	a.notify()
 	return true
 }
@@ -140,6 +152,8 @@ func (a *simAdapter) head() int {
 
 func (a *simAdapter) DequeueWithAckId() (any, bool, string) {
 	simrt.YieldAlways()
+	a.hb()
+	defer a.hb()
 	i := a.head()
 	if i < 0 {
 		a.lostRace++
@@ -152,7 +166,7 @@ func (a *simAdapter) DequeueWithAckId() (any, bool, string) {
 		return nil, false, ""
 	}
 	e := a.pending[i]
-	a.pending = append(a.pending[:i:i], a.pending[i+1:]...)
+	a.pending = removeAt(a.pending, i)
 	a.ackSeq++
 	id := fmt.Sprintf("ack-%d", a.ackSeq)
 	a.unacked = append(a.unacked, adUnacked{ID: id, E: e, Inc: a.inc})
@@ -167,13 +181,15 @@ func (a *simAdapter) DequeueWithAckId() (any, bool, string) {
 // Dequeue without acknowledgement: the item leaves the adapter for good.
 func (a *simAdapter) Dequeue() (any, bool) {
 	simrt.YieldAlways()
+	a.hb()
+	defer a.hb()
 	i := a.head()
 	if i < 0 {
 		a.log("deq-noack", -1, "", false)
 		return nil, false
 	}
 	e := a.pending[i]
-	a.pending = append(a.pending[:i:i], a.pending[i+1:]...)
+	a.pending = removeAt(a.pending, i)
 	a.log("deq-noack", e.Sub, "", true)
 	a.root.rec.adDeqNoAck(a, e.Sub)
 	if e.Raw != nil {
@@ -184,6 +200,8 @@ func (a *simAdapter) Dequeue() (any, bool) {
 
 func (a *simAdapter) Acknowledge(id string) bool {
 	simrt.YieldAlways()
+	a.hb()
+	defer a.hb()
 	if a.faultsOn && a.cfg.FAck > 0 && simrt.Chance(a.cfg.FAck) {
 		a.FiredAck++
 		a.log("ack", -1, id, false)
@@ -192,7 +210,7 @@ func (a *simAdapter) Acknowledge(id string) bool {
 	}
 	for i, u := range a.unacked {
 		if u.ID == id {
-			a.unacked = append(a.unacked[:i:i], a.unacked[i+1:]...)
+			a.unacked = removeAt(a.unacked, i)
 			a.acked = append(a.acked, id)
 			a.log("ack", u.E.Sub, id, true)
 			a.root.rec.adAckKnown(a, u, id)
@@ -206,11 +224,15 @@ func (a *simAdapter) Acknowledge(id string) bool {
 
 func (a *simAdapter) Len() int {
 	simrt.YieldAlways()
+	a.hb()
+	defer a.hb()
 	return len(a.pending)
 }
 
 func (a *simAdapter) Values() []any {
 	simrt.YieldAlways()
+	a.hb()
+	defer a.hb()
 	out := make([]any, 0, len(a.pending))
 	idx := make([]int, len(a.pending))
 	for i := range idx {
@@ -237,6 +259,8 @@ func (a *simAdapter) Values() []any {
 
 func (a *simAdapter) Purge() {
 	simrt.YieldAlways()
+	a.hb()
+	defer a.hb()
 	for _, e := range a.pending {
 		a.root.rec.adPurged(a, e.Sub)
 	}
@@ -246,12 +270,16 @@ func (a *simAdapter) Purge() {
 
 func (a *simAdapter) Close() error {
 	simrt.YieldAlways()
+	a.hb()
+	defer a.hb()
 	a.closed = true
 	return nil
 }
 
 func (a *simAdapter) Subscribe(fn func(action string)) {
 	simrt.YieldAlways()
+	a.hb()
+	defer a.hb()
 	a.subs = append(a.subs, fn)
 	a.notifies = append(a.notifies, 0)
 	a.subOwner = append(a.subOwner, a.root.binding)
@@ -321,7 +349,15 @@ func (a *simAdapter) inject(pos int, e adEntry) {
 	if pos > len(a.pending) {
 		pos = len(a.pending)
 	}
-	a.pending = append(a.pending, adEntry{})
-	copy(a.pending[pos+1:], a.pending[pos:])
-	a.pending[pos] = e
+	out := make([]adEntry, 0, len(a.pending)+1)
+	for i := range a.pending {
+		if i == pos {
+			out = append(out, e)
+		}
+		out = append(out, a.pending[i])
+	}
+	if pos >= len(a.pending) {
+		out = append(out, e)
+	}
+	a.pending = out
 }
